@@ -128,7 +128,9 @@ def shared_state_rule(ctx: Ctx, rid: str) -> None:
                 continue  # object construction
             cls = q.split(".")[0] if "." in q else None
             # per-render / per-loop objects own their state
-            if mod == "runtime" and cls in ("Context", "LoopContext", "AsyncLoopContext", "BlockReference", "TemplateReference", "Macro", "Undefined"):
+            # (Macro is *not* per render: the macros of an imported template live in the module
+            # memoised on the Template object and are called by every render importing it)
+            if mod == "runtime" and cls in ("Context", "LoopContext", "AsyncLoopContext", "BlockReference", "TemplateReference", "Undefined"):
                 per_render = True
             elif mod in ("async_utils",) and cls == "_IteratorToAsyncIterator":
                 per_render = True
